@@ -215,6 +215,11 @@ def run(prog: Program, rep: Report, tier: str) -> None:
     rep.rule("R01.5", "the stage velocities are the forcing's time interpolation evaluated at the stage's time fraction, in both directions (shared with C03 R03.5)", 10)
     from . import c03
 
+    rep.rule("R01.10", "the stage velocity is computed from the fields in force at this step: nothing the forcing memoises between calls survives a write to the fields (shared with C03 R03.11)", 1)
+    sub0 = Report(pid="C01")
+    c03.memo_invalidation(prog, sub0)
+    for o in sub0.obligations:
+        rep.add("R01.10", o.func, f"[{o.rule}] {o.construct}", o.verdict == "ok" if o.verdict != "undecided" else None, o.what, o.loc)
     sub = Report(pid="C01")
     c03.fractional(prog, sub)
     for o in sub.obligations:
